@@ -9,6 +9,7 @@
 //   - Gift(keeper): a keeper-level bank transfer (SendCoinsFromAccountToModule) into the module account (what
 //     another module could do),
 //   - Advance: a block whose time is the requested point of a client's vesting window.
+//
 // The driver has no expectations: it records results and the projection of bank / auth / paloma / feegrant /
 // skyway state after every block.
 package lightnode
